@@ -1850,6 +1850,44 @@ def install_models(I):
     M["alloc::collections::btree::map::BTreeMap::keys"] = lambda I, a, f: ListIt([Ptr(pair, 0) for pair in bmap(a[0]).items])
     M["alloc::collections::btree::map::BTreeMap::into_values"] = lambda I, a, f: ListIt([pair[1] for pair in bmap(a[0]).items])
 
+    def bmap_range(I, a, f):
+        """BTreeMap::range(bounds) with concrete integer keys and concrete bounds: the (key, value) pairs in key order"""
+        m = bmap(a[0])
+        r = deref(a[1])
+        if not (isinstance(r, Agg) and r.adt and "ops::range::" in r.adt):
+            raise Unanalysable("BTreeMap::range with bounds %r" % (r,))
+        kind = r.adt.rsplit("::", 1)[-1]
+        lo, hi = None, None            # hi exclusive
+        ends = [deref(x) for x in r.items]
+        if any(not isinstance(x, int) or isinstance(x, bool) for x in ends):
+            raise Unanalysable("BTreeMap::range with symbolic bounds")
+        if kind == "Range":
+            lo, hi = ends
+        elif kind == "RangeInclusive":
+            lo, hi = ends[0], ends[1] + 1
+            if len(ends) > 2 and ends[2] is True:      # exhausted flag
+                hi = lo
+        elif kind == "RangeFrom":
+            lo = ends[0]
+        elif kind == "RangeTo":
+            hi = ends[0]
+        elif kind == "RangeToInclusive":
+            hi = ends[0] + 1
+        elif kind != "RangeFull":
+            raise Unanalysable("BTreeMap::range with %s" % kind)
+        if lo is not None and hi is not None and lo > hi:
+            raise PanicReached("BTreeMap::range start is greater than range end")
+        out = []
+        for pair in m.items:
+            k = map_key(pair[0])
+            if len(k) != 1:
+                raise Unanalysable("BTreeMap::range over composite keys")
+            if (lo is None or k[0] >= lo) and (hi is None or k[0] < hi):
+                out.append(Agg([Ptr(pair, 0), Ptr(pair, 1)], "tuple"))
+        return ListIt(out)
+    M["alloc::collections::btree::map::BTreeMap::range"] = bmap_range
+    M["alloc::collections::btree::map::BTreeMap::range_mut"] = bmap_range
+
     def bmap_entry(I, a, f):
         m = bmap(a[0])
         e = Opaque("map-entry")
@@ -2277,6 +2315,13 @@ def install_models(I):
                     elif isinstance(u, Poly) and isinstance(w, Poly) and (u - w).const_value() is not None:
                         if (u - w).const_value() != 0:
                             return neg
+                    elif isinstance(u, Agg) and isinstance(w, Agg) and (u.adt or u.kind) == (w.adt or w.kind):
+                        # nested value (Option<&Enum>, tuple of enums): structural comparison, decided when both are concrete
+                        sub = peq(False)(I, [u, w], f)
+                        if sub is False:
+                            return neg
+                        if sub is not True:
+                            syms.append((u, w))
                     else:
                         syms.append((u, w))
                 if not syms:
